@@ -31,7 +31,7 @@ ASSUMPTIONS = [
 REQUIRED_CLASSES = ["nontrivial", "fallback_global", "outside_one_axis", "outside_both_axes", "reversed_end_returned",
                     "id0_returned", "bins=1", "bins=2", "bins>=3", "none_returned", "within_one_cell",
                     "query_at_end", "reverse_on", "reverse_off", "neighbourhood_not_global", "after_removal",
-                    "lattice", "continuous", "id0_in_neighbourhood", "other_index_alive", "vertices_as_tuples"]
+                    "lattice", "continuous", "id0_in_neighbourhood", "other_index_alive", "vertices_as_tuples", "bins>64", "near_tie_decides"]
 QUICK_SHARDS = 4
 
 spatial_grid = sut.load("spatial_grid")
@@ -92,6 +92,8 @@ def body(ctx, case):
     if case.get("tuples"):
         base.add("vertices_as_tuples")
     base.add("bins=1" if bins == 1 else ("bins=2" if bins == 2 else "bins>=3"))
+    if bins > 64:
+        base.add("bins>64")
     count = len(paths)
     what = "Index(%r, %r, %r)" % (case["paths"], bins, reverse)
     index = call_sut(spatial_grid.Index, paths, bins, reverse)
@@ -203,6 +205,9 @@ def body(ctx, case):
             classes.add("fallback_global")
         else:
             classes.add("ambiguous_skipped")
+        ordered = sorted(dist.values())
+        if len(ordered) >= 2 and ordered[0] != ordered[1] and ordered[1] - ordered[0] <= ordered[1] / 10 ** 6:
+            classes.add("near_tie_decides")
         one_cell = min(ref.bw, ref.bh)
         within = ref.in_grid(q) and d_min <= (one_cell * (1 - F(1, 10 ** 6))) ** 2
         if within:
@@ -283,7 +288,7 @@ def point_sets(draw):
 def histories(draw):
     paths, kind, tag, scale = draw(point_sets())
     reverse = draw(st.booleans())
-    bins = draw(st.sampled_from([1, 1, 2, 2, 3, 3, 4, 4, 5, 6, 7, 8, 10, 12, 50]))
+    bins = draw(st.sampled_from([1, 1, 2, 2, 3, 3, 4, 4, 5, 6, 7, 8, 10, 12, 50, 64, 65, 80, 100]))
     # the statement's precondition: indexed ends have non-zero extent
     indexed = [p[0] for p in paths] + ([p[1] for p in paths] if reverse else [])
     if len({tuple(p) for p in indexed}) < 2:
@@ -310,7 +315,24 @@ def histories(draw):
             ops.append(["r", draw(st.integers(0, 10 ** 6))])
             continue
         qk = draw(st.sampled_from(["at_end", "near_end", "near_end", "inside", "border", "out_x", "out_y", "out_both",
-                                   "far", "corner"]))
+                                   "far", "corner", "near_tie", "last_cells"]))
+        if qk == "near_tie" and len(indexed) >= 2:
+            # almost exactly half-way between two indexed ends: one is closer by a relative 1e-10 .. 1e-7, which is
+            # far above float noise (1e-16) and must decide the answer
+            a = draw(st.sampled_from(indexed))
+            b = draw(st.sampled_from(indexed))
+            eps = draw(st.sampled_from([1e-10, 1e-9, 3e-10, 1e-8, 1e-7])) * draw(st.sampled_from([1, -1]))
+            q = [(a[0] + b[0]) / 2 + (b[0] - a[0]) * eps, (a[1] + b[1]) / 2 + (b[1] - a[1]) * eps]
+            ops.append(["q", q])
+            continue
+        if qk == "last_cells":
+            # in the last two columns / rows of the grid
+            q = [gx0 + w - bw * draw(st.sampled_from([0.25, 0.5, 1.25, 1.5])),
+                 gy0 + (h * draw(frac) if draw(st.booleans()) else h - bh * draw(st.sampled_from([0.25, 1.25])))]
+            if draw(st.booleans()):
+                q = [q[1] - gy0 + gx0 if w == h else gx0 + w * draw(frac), gy0 + h - bh * draw(st.sampled_from([0.25, 0.5, 1.25]))]
+            ops.append(["q", q])
+            continue
         if qk == "at_end":
             q = list(draw(st.sampled_from(indexed)))
         elif qk == "near_end":
